@@ -35,6 +35,9 @@ type C02Body struct {
 	MemTable uint64 `json:"mem_table"`
 	MaxTab   int    `json:"max_tables"`
 	Readers  int    `json:"readers"` // tasks that open a fresh instance and read
+	// Conjoin (procs mode): one more process conjoins the directory's table files (ConjoinTableFiles):
+	// a manifest update that changes the table set and must leave the root alone
+	Conjoin bool `json:"conjoin,omitempty"`
 	// YieldOps: which classes of file operations are scheduling points in procs mode
 	YieldOps []string `json:"yield_ops"`
 	Seed     uint64   `json:"sched_seed"`
@@ -56,6 +59,7 @@ func (C02) Generate(seed uint64, tier string) *core.Scenario {
 	b.NTasks = r.Range(2, 4)
 	b.Iters = r.Range(2, 5)
 	b.Readers = r.Range(0, 2)
+	b.Conjoin = b.Mode == "procs" && r.Chance(1, 2)
 	b.MemTable = uint64([]int{1 << 10, 64 << 10}[r.Intn(2)])
 	b.MaxTab = []int{2, 3, 256}[r.Intn(3)]
 	all := []string{"rename", "remove", "create", "open", "stat", "fsync", "readdir", "write", "read"}
@@ -368,6 +372,42 @@ func (C02) Execute(t *testing.T, sc *core.Scenario) *core.Result {
 	}
 	for i := 0; i < b.Readers; i++ {
 		s.Go(fmt.Sprintf("reader%d", i), reader(i)).Actor = 50 + i
+	}
+	if b.Conjoin && b.Mode == "procs" {
+		s.Go("conjoiner", func(tk *core.Task) {
+			sos.SetActor(40)
+			st, err := openStore()
+			if err != nil {
+				return
+			}
+			defer func() { sos.SetActor(40); st.Close() }()
+			for it := 0; it < b.Iters; it++ {
+				tk.Yield("conjoin-iter")
+				sos.SetActor(40)
+				if err := st.Rebase(ctx); err != nil {
+					continue
+				}
+				srcs, err := st.Sources(ctx)
+				if err != nil {
+					continue
+				}
+				var ids []hash.Hash
+				for _, tf := range srcs.TableFiles {
+					if id, ok := hash.MaybeParse(tf.FileID()); ok {
+						ids = append(ids, id)
+					}
+				}
+				if len(ids) < 2 {
+					continue
+				}
+				sos.SetActor(40)
+				if _, err := st.ConjoinTableFiles(ctx, ids); err != nil {
+					res.Probe("conjoin_error:" + firstLine(err)[:min(50, len(firstLine(err)))])
+				} else {
+					res.Fault("conjoin")
+				}
+			}
+		}).Actor = 40
 	}
 	if msg := s.Run(); msg != "" {
 		res.Panic = "scheduler: " + msg + "\n" + strings.Join(s.Trace, "\n")
